@@ -10,7 +10,7 @@ func init() {
 		Run: func(c *Ctx) {
 			c.Do("C06.a", "L1+L3 garbage-list integrity", 10, func() { clGarbageListOwners(c); clDeleteNodeWinner(c) })
 			c.Do("C06.b", "L2 stitch completeness", 8, func() { clStitch(c); clStitchTable(c) })
-			c.Do("C06.c", "L1+L2 release protocol", 12, func() { clSnapshotClose(c); clGCTryLock(c); clCollectorGuard(c); clPlainComparatorTables(c) })
+			c.Do("C06.c", "L1+L2 release protocol", 12, func() { clSnapshotClose(c); clGCTryLock(c); clCollectorGuard(c); clPlainComparatorTables(c); clBackupOwnsSnapshot(c) })
 			c.Do("C06.d", "L2 worker unlinks every listed node", 4, func() {
 				clCollectionWorker(c, "C06.d")
 				clRestoreItemSize(c)
